@@ -148,4 +148,35 @@ def search_iter(job):
     return {"violated": False}
 
 
+def search_coords(job):
+    """positions around the table size and around the limits, as (row, col) and as A1 text, through _validate_cell_coords and cell()"""
+    from numbers_parser.constants import MAX_ROW_COUNT, MAX_COL_COUNT
+    from numbers_parser import xl_rowcol_to_cell
+    for r in (-2, -1, 0, 1, 2, 3, 4, 7, MAX_ROW_COUNT - 1, MAX_ROW_COUNT, MAX_ROW_COUNT + 1):
+        for c in (-1, 0, 2, 3, 5, MAX_COL_COUNT - 1, MAX_COL_COUNT, MAX_COL_COUNT + 3):
+            res = check_validate(r, c)
+            if res.get("violated"):
+                return res
+    for r in range(-1, 6):
+        for c in range(-1, 6):
+            res = replay_cell({"inputs": {"r": r, "c": c}})
+            if res.get("violated"):
+                return res
+    # the A1 form addresses the same cell as the (row, col) form
+    doc, t = _table(4, 4)
+    for r in range(4):
+        for c in range(4):
+            if t.cell(xl_rowcol_to_cell(r, c)) is not t.rows()[r][c]:
+                return {"violated": True, "detail": f"cell({xl_rowcol_to_cell(r, c)!r}) is not the cell at ({r},{c})"}
+    for bad in ("E1", "A5", "1A", "A0"):
+        try:
+            got = t.cell(bad)
+        except IndexError:
+            continue
+        except Exception as e:  # noqa: BLE001
+            return {"violated": True, "detail": f"cell({bad!r}) on a 4x4 table raised {type(e).__name__}: {e}"}
+        return {"violated": True, "detail": f"cell({bad!r}) on a 4x4 table returned a cell (row={got.row}, col={got.col})"}
+    return {"violated": False}
+
+
 NATIVE = {}
